@@ -369,7 +369,7 @@ def run_pipeline(ctx, bins, scs, tag):
                 f.write(json.dumps({k: v for k, v in s.items() if k not in ("pre", "M", "directed", "d15_somewhere")}) + "\n")
         if os.path.exists(out):
             os.remove(out)
-        rc, txt = ctx.run_bin(binary, "^TestVerifC15Pipe$", env={"VERIF_CASES": path, "VERIF_OUT": out}, timeout=1500)
+        rc, txt = ctx.run_bin(binary, "^TestVerifC15Pipe$", env={"VERIF_CASES": path, "VERIF_OUT": out}, timeout=4500)
         results, begun, done = {}, set(), False
         if os.path.exists(out):
             for line in open(out):
@@ -478,7 +478,7 @@ def replay_plugin(ctx, binary, test, cases, tag):
     with open(path, "w") as f:
         for c in cases:
             f.write(json.dumps(c) + "\n")
-    rc, txt = ctx.run_bin(binary, test, env={"VERIF_CASES": path, "VERIF_OUT": out}, timeout=1500)
+    rc, txt = ctx.run_bin(binary, test, env={"VERIF_CASES": path, "VERIF_OUT": out}, timeout=4500)
     if rc != 0 or not os.path.exists(out):
         raise vlib.Infra("C15 %s harness failed rc=%s:\n%s" % (tag, rc, txt[-3000:]))
     r = json.load(open(out))
@@ -519,7 +519,7 @@ def replay_pairs(ctx, binary, test, pairs, tag):
     with open(path, "w") as f:
         for c in pairs:
             f.write(json.dumps(c) + "\n")
-    rc, txt = ctx.run_bin(binary, test, env={"VERIF_CASES": path, "VERIF_OUT": out}, timeout=900)
+    rc, txt = ctx.run_bin(binary, test, env={"VERIF_CASES": path, "VERIF_OUT": out}, timeout=2700)
     if rc != 0 or not os.path.exists(out):
         raise vlib.Infra("C15 %s harness failed rc=%s:\n%s" % (tag, rc, txt[-3000:]))
     r = json.load(open(out))
@@ -555,34 +555,34 @@ def run(ctx):
     sw = dict(x.split("=") for x in os.environ.get("VERIF_C15_SWITCHES", "").split(",") if "=" in x)
     jsw = {k: v for k, v in sw.items() if k in ("D5_TimeoutToLastAction", "D15_BreakBypassesHold")} or None
     ksw = {k: v for k, v in sw.items() if k.startswith(("D12_", "D16_", "D17_", "D20_"))} or None
-    rj = ctx.tlc_expect_ok("Join", "Join_quick.cfg" if quick else "Join_thorough.cfg", timeout=1500, deadlock=False,
+    rj = ctx.tlc_expect_ok("Join", "Join_quick.cfg" if quick else "Join_thorough.cfg", timeout=4500, deadlock=False,
                            overrides=jsw)
     # (quick tier: the ideal configurations run one length bound lower to stay within the budget)
-    ctx.tlc_expect_ok("Join", "Join_ideal.cfg", timeout=600, deadlock=False, name="Join/ideal (deviations off)",
+    ctx.tlc_expect_ok("Join", "Join_ideal.cfg", timeout=1800, deadlock=False, name="Join/ideal (deviations off)",
                       overrides={"MaxLen1": "4", "MaxLenPre": "3"} if quick else None)
     # spec mutant: the selector of a busy action is evaluated -> TLC must reject it (its counterexamples are the directed
     # selector scenarios of the pipeline-level runs)
     for cfgname, mech in (("Join_mutsel.cfg", "M_BusyIgnoresSelector"), ("Join_mutprop.cfg", "M_PropagateResetsBusyFirst")):
-        rm = ctx.tlc("Join", cfgname, timeout=300, deadlock=False, name="Join/mutant %s off" % mech)
+        rm = ctx.tlc("Join", cfgname, timeout=900, deadlock=False, name="Join/mutant %s off" % mech)
         if rm.violated != "StatementOK":
             raise vlib.Infra("spec mutant %s=FALSE was not rejected by StatementOK: %s" % (mech, rm.violated))
     # the action's state is per plugin instance (= per processor): product of two single-stream machines, and the mutant
     # "current template index shared by the instances" must be rejected
-    ctx.tlc_expect_ok("JoinInstances", "JoinInstances_quick.cfg" if quick else "JoinInstances_thorough.cfg", timeout=900,
+    ctx.tlc_expect_ok("JoinInstances", "JoinInstances_quick.cfg" if quick else "JoinInstances_thorough.cfg", timeout=2700,
                       deadlock=False)
-    rmi = ctx.tlc("JoinInstances", "JoinInstances_mut.cfg", timeout=300, deadlock=False,
+    rmi = ctx.tlc("JoinInstances", "JoinInstances_mut.cfg", timeout=900, deadlock=False,
                   name="JoinInstances/mutant M_TemplateStatePerInstance off")
     if rmi.violated != "StreamsIndependent":
         raise vlib.Infra("spec mutant M_TemplateStatePerInstance=FALSE was not rejected: %s" % rmi.violated)
     rk = ctx.tlc_expect_ok("K8sMultiline", "K8sMultiline_quick.cfg" if quick else "K8sMultiline_thorough.cfg",
-                           timeout=1500, deadlock=False, overrides=ksw)
-    ctx.tlc_expect_ok("K8sMultiline", "K8sMultiline_ideal.cfg", timeout=600, deadlock=False,
+                           timeout=4500, deadlock=False, overrides=ksw)
+    ctx.tlc_expect_ok("K8sMultiline", "K8sMultiline_ideal.cfg", timeout=1800, deadlock=False,
                       name="K8sMultiline/ideal (deviations off)", overrides={"MaxLen": "3"} if quick else None)
     # repaired defects kept as spec mutants: the old behaviour must be rejected by TLC (a real-code regression is
     # caught by the replay, where the specification no longer excuses it)
     for cfgname, inv, what in (("K8sMultiline_mutD12.cfg", "NoPanic", "D12 empty log panics (before 850331b)"),
                                ("K8sMultiline_mutD17.cfg", "ResidualOK", "D17 skip flag survives time-out (before e8faead)")):
-        rmk = ctx.tlc("K8sMultiline", cfgname, timeout=300, deadlock=False, name="K8sMultiline/mutant " + what)
+        rmk = ctx.tlc("K8sMultiline", cfgname, timeout=900, deadlock=False, name="K8sMultiline/mutant " + what)
         if rmk.violated != inv:
             raise vlib.Infra("spec mutant %s was not rejected by %s: %s" % (cfgname, inv, rmk.violated))
     jcases = [c for c in rj.printed if "seq" in c and "pre" in c]
